@@ -68,7 +68,7 @@ func c07Setup(rc *RunCtx) simrt.Config {
 	// DoH is left out: doh.Upstream has no Close and is not in the property's
 	// transport list (pipelined, UDP, non-pipelined); DoQ runs on PipelineTransport.
 	c.kind = []TransportKind{TkUDP, TkTCP, TkTCPPipeline, TkPipelineStream, TkPipelineDgram, TkReuse, TkDoQ}[r.Choose(7)]
-	c.callers = 1 + r.Choose(6)
+	c.callers = 1 + r.Choose(widen(6, 12))
 	c.mute = r.Choose(6) == 0
 	pick := func(vals ...int) int { return vals[r.Choose(len(vals))] }
 	if !c.mute {
